@@ -12,8 +12,8 @@ package main
 //
 // Ops (a case = the ops between `reset`s):
 //   new NVAL
-//   cand P DH PREV VER VT CLS VOTES TS
-//        P     intended parent: index into the list of accepted blocks (mod its length; -1 = newest)
+//   cand P DH PREV VER VT CLS VOTES TS NV
+//        P     intended parent: index into the list of accepted blocks (mod its length; -1 = newest, -2 = parent of the newest)
 //        DH    height = P.height + 1 + DH
 //        PREV  par | n<k> (id of accepted block k mod len) | rand (32 random-looking bytes)
 //        VER   value returned by candidate.Version()
@@ -21,6 +21,9 @@ package main
 //        CLS   ok (distinct validators) | dup (votes 0 and 1 by the same validator) | str (vote 0 by a non validator)
 //        VOTES - | comma separated vote timestamps: offset relative to P.timestamp, or =ABS
 //        TS    m<off> (median+off) | p<off> (P.timestamp+off) | a<abs>
+//        NV    - | k: the candidate carries a transaction that sets the state's next block version to k
+//              (the version required of a block is the one recorded in its PARENT's result, i.e. it
+//              changes for the grandchildren of the block that carries the transaction)
 //   fin K    Finalize accepted block K (mod len; -1 = newest)
 //   finup    Finalize the ancestor-or-self of the newest accepted block whose parent is the last finalized block
 //
@@ -364,7 +367,7 @@ func (r *c07Runner) Step(t []string, o *Oracle) string {
 		}
 		return r.finalize(j, o)
 	case "cand":
-		if len(t) != 9 || r.nd == nil {
+		if len(t) != 10 || r.nd == nil {
 			return "bad-op"
 		}
 		return r.cand(t[1:], o)
@@ -406,14 +409,26 @@ func c07ParseI64(s string) (int64, bool) {
 func (r *c07Runner) cand(a []string, o *Oracle) string {
 	n := len(r.nodes)
 	pv, ok := c07ParseI64(a[0])
-	if !ok || pv < -1 {
+	if !ok || pv < -2 {
 		return "bad-op"
 	}
 	pi := n - 1
 	if pv >= 0 {
 		pi = int(pv % int64(n))
+	} else if pv == -2 && r.nodes[n-1].parent >= 0 {
+		pi = r.nodes[n-1].parent // parent of the newest accepted block
 	}
 	P := r.nodes[pi]
+	// NV: the candidate carries a transaction that sets the chain's next block version
+	var nvTx []byte
+	if a[8] != "-" {
+		k, ok := c07ParseI64(a[8])
+		if !ok || k < -2147483648 || k > 2147483647 {
+			return "bad-op"
+		}
+		k32 := int32(k)
+		nvTx = test.NewTx().SetNextBlockVersion(&k32).SetTimestamp(int64(r.serial) + 1).Bytes()
+	}
 	dh, ok := c07ParseI64(a[1])
 	if !ok {
 		return "bad-op"
@@ -516,6 +531,14 @@ func (r *c07Runner) cand(a []string, o *Oracle) string {
 	h2.PrevID = prevID
 	h2.VotesHash = votes.Hash()
 	b2.Votes = votes.Bytes()
+	if nvTx != nil {
+		tx, terr := r.nd.SM.TransactionFromBytes(nvTx, module.BlockVersion2)
+		if terr != nil {
+			return "harness-error:tx:" + c07Short(terr.Error())
+		}
+		b2.NormalTransactions = [][]byte{nvTx}
+		h2.NormalTransactionsHash = r.nd.SM.TransactionListFromSlice([]module.Transaction{tx}, module.BlockVersion2).Hash()
+	}
 	bd0, err := r.nd.BM.NewBlockDataFromReader(block.NewBlockReaderFromFormat(&h2, &b2))
 	if err != nil {
 		return "harness-error:decode:" + c07Short(err.Error())
@@ -550,7 +573,7 @@ func (r *c07Runner) cand(a []string, o *Oracle) string {
 		}
 	}
 	o.Count(verdict)
-	out := fmt.Sprintf("%s h=%d ts=%d med=%d P=%d/%d", verdict, bd.Height(), bd.Timestamp(), bd.Votes().Timestamp(), P.blk.Height(), P.blk.Timestamp())
+	out := fmt.Sprintf("%s h=%d ts=%d med=%d P=%d/%d/v%d", verdict, bd.Height(), bd.Timestamp(), bd.Votes().Timestamp(), P.blk.Height(), P.blk.Timestamp(), r.nd.SM.GetNextBlockVersion(P.blk.Result()))
 
 	// ---- property oracle, on the real objects, independent of the Lean model
 	// the code adds the two middle timestamps in int64: outside of that sum overflowing, the
@@ -607,7 +630,7 @@ func (r *c07Runner) cand(a []string, o *Oracle) string {
 		o.Check(par != nil, "accepted-unknown-parent", "accepted a block whose PrevID %x is not an accepted block", bd.PrevID())
 		o.Check(cPrev, "accepted-pruned-parent", "accepted a block on a parent that is not in the tree of the last finalized block")
 		o.Check(cHeight, "accepted-bad-height", "accepted height %d on a parent of another height", bd.Height())
-		o.Check(cVer, "accepted-bad-version", "accepted version %d, parent's state requires %d", bd.Version(), reqVer)
+		o.Check(cVer, "c07-accepted-version-not-required-by-parent-state", "accepted version %d on a parent (height %d) whose state requires %d", bd.Version(), ref.blk.Height(), reqVer)
 		if inRange {
 			o.Check(cMed, "accepted-ts-not-median", "accepted height %d timestamp %d, median of votes %v is %v", bd.Height(), bd.Timestamp(), tss, wantMed)
 		}
@@ -650,6 +673,19 @@ func (r *c07Runner) cand(a []string, o *Oracle) string {
 	default:
 		o.Count("class-multi-deviation")
 		o.Check(verdict != "accept", "multi-deviation-accepted", "a block with %d deviations was accepted", bad)
+	}
+	if reqVer != module.BlockVersion2 {
+		if par != nil && parIdx == r.fin {
+			o.Count("parent-finalized-requires-unregistered-version")
+		} else if par != nil && par.alive {
+			o.Count("parent-unfinalized-requires-other-version")
+		}
+		if verdict == "accept" {
+			o.Count("accepted-with-version!=2")
+		}
+	}
+	if nvTx != nil && verdict == "accept" {
+		o.Count("accepted-with-nextBlockVersion-tx")
 	}
 	if bd.Height() <= 1 {
 		o.Count("cand-height<=1")
